@@ -16,6 +16,7 @@ import random as _random
 import shutil
 import sys
 import time as _time
+import weakref
 
 from . import proc
 from .steps import SimInterrupt, Divergent, Inconclusive
@@ -102,8 +103,7 @@ class _SimFile:
             self._drain()
         finally:
             self._real.close()
-            if self in fs.open_files:
-                fs.open_files.remove(self)
+            fs.open_files.discard(self)
 
     # -- reads
     def read(self, *a):
@@ -137,6 +137,14 @@ class _SimFile:
     def closed(self):
         return self._closed
 
+    def __del__(self):
+        # CPython flushes and closes a file object when it is deallocated
+        try:
+            if not self._closed:
+                self.close()
+        except Exception:
+            pass
+
     def __getattr__(self, name):
         return getattr(self._real, name)
 
@@ -150,7 +158,7 @@ class SimFS:
         self.faults = []
         self.fault_counts = {}
         self.fired = []
-        self.open_files = []
+        self.open_files = weakref.WeakSet()   # file objects the process has not closed (yet)
         self.killed = False
         self.kill_keep = 0.0
 
@@ -199,7 +207,7 @@ class SimFS:
             raise OSError(ERRNOS[flt["errno"]], os.strerror(ERRNOS[flt["errno"]]), os.fspath(file))
         real = _REAL_OPEN(file, mode, *a, **kw)
         sf = _SimFile(self, real, rel, mode)
-        self.open_files.append(sf)
+        self.open_files.add(sf)
         return sf
 
     def begin_op(self, faults):
@@ -210,15 +218,21 @@ class SimFS:
         self.killed = False
         self.kill_keep = 0.0
 
-    def end_op(self):
-        """Finalise file objects the code left open (CPython flushes on dealloc /
-        at interpreter exit; after a kill nothing more reaches the disk)."""
+    def end_op(self, process_ends=False):
+        """After an op: file objects that became garbage have been finalised by
+        their __del__ (flush + close, as CPython does).  Objects the process still
+        references stay open - and their buffered data stays off the disk - until
+        the process ends (interpreter shutdown flushes them) or is killed (only a
+        seeded prefix of the pending data survives)."""
+        if not (process_ends or self.killed):
+            return
         for sf in list(self.open_files):
             try:
                 sf.close()
             except OSError:
                 pass
-        self.open_files = []
+        self.open_files = weakref.WeakSet()
+        self.killed = False
 
     def snapshot(self):
         out = {}
@@ -361,6 +375,10 @@ class World:
 
     def close(self):
         try:
+            self.fs.end_op(process_ends=True)
+        except Exception:
+            pass
+        try:
             os.chdir(self.prev_cwd)
         except OSError:
             os.chdir("/")
@@ -368,6 +386,9 @@ class World:
 
     def restart(self, entropy):
         """Process boundary: only the disk survives."""
+        if hasattr(self, "fs"):
+            gc.collect()
+            self.fs.end_op(process_ends=True)
         proc.restart()
         if entropy is not None:
             _random.seed(entropy)
@@ -479,9 +500,9 @@ class World:
             out["sweeps"] = sc.total_sweeps
             out["max_sweeps"] = sc.max_sweeps
             sc.on_interrupt = None
-            if fs.open_files or out["status"] != "ok":
+            if len(fs.open_files) or out["status"] != "ok":
                 gc.collect()
-            fs.end_op()
+            fs.end_op(process_ends=bool(cfg.get("process_ends")))
             builtins.open = old[3]
             sys.stdout, sys.stderr, sys.argv = old[0], old[1], old[2]
             for k, v in _REAL_TIME.items():
